@@ -1,3 +1,344 @@
-//! C11 (stub: no cases yet)
+//! C11 — array-building macros under hostile closures: array::map! / from_fn! (kernel
+//! loop + post-loop assertion), map_! / from_fn_! (consumer + builder), ArrayBuilder
+//! histories.  One outcome code per evaluation of the closure body:
+//! 0 value, 1 break, 2 continue, 3 return, 4 panic.  A script that runs out while the
+//! macro's loop still wants another evaluation is reported as DIVERGED.
+use crate::c15::{hand, histories, leaked, next_id, reset, show_evs, show_ids, take_log, Elem, E};
 use crate::common::*;
-pub fn run(_cfg: &Cfg, _out: &mut Out) {}
+use std::panic::{catch_unwind, panic_any, AssertUnwindSafe};
+
+struct Limit;
+
+fn classify<T>(r: std::thread::Result<Option<T>>, show: impl FnOnce(T) -> String) -> String {
+    match r {
+        Ok(Some(v)) => format!("B{}", show(v)),
+        Ok(None) => "RET".into(),
+        Err(e) => {
+            if e.downcast_ref::<Limit>().is_some() { "DIVERGED".into() } else { "PANIC".into() }
+        }
+    }
+}
+
+/// scripts worth distinguishing: nothing after a terminating code or after `n` values
+fn scripts(n: usize, max_len: usize) -> Vec<Vec<u8>> {
+    fn go(n: usize, max_len: usize, cur: &mut Vec<u8>, values: usize, out: &mut Vec<Vec<u8>>) {
+        out.push(cur.clone());
+        if cur.len() == max_len || values == n {
+            return;
+        }
+        if let Some(&c) = cur.last() {
+            if c == 1 || c == 3 || c == 4 {
+                return;
+            }
+        }
+        for c in 0..5u8 {
+            cur.push(c);
+            go(n, max_len, cur, values + (c == 0) as usize, out);
+            cur.pop();
+        }
+    }
+    let mut out = Vec::new();
+    go(n, max_len, &mut Vec::new(), 0, &mut out);
+    out
+}
+
+fn script_tag(s: &[u8]) -> String {
+    let names = ["", "break", "continue", "return", "panic"];
+    let mut t: Vec<&str> = Vec::new();
+    for c in 1..5u8 {
+        if s.contains(&c) {
+            t.push(names[c as usize]);
+        }
+    }
+    if t.is_empty() { if s.is_empty() { "-".into() } else { "values".into() } } else { t.join("+") }
+}
+
+fn show_script(s: &[u8]) -> String {
+    show_list(s.iter(), |c| c.to_string())
+}
+fn show_u64s(l: &[u64]) -> String {
+    show_list(l.iter(), |c| c.to_string())
+}
+
+/// what std does with the same script, when a real closure can express it
+fn std_applicable(s: &[u8], n: usize) -> bool {
+    // the first n evaluations (or all, if the script stops earlier with a panic) must be
+    // values, possibly ended by a panic
+    let mut values = 0;
+    for &c in s {
+        if values == n {
+            return true;
+        }
+        match c {
+            0 => values += 1,
+            4 => return true,
+            _ => return false,
+        }
+    }
+    values == n
+}
+
+// ------------------------------------------------------------ array::map! / from_fn!
+
+fn map_num<const N: usize>(s: &[u8]) -> (String, String) {
+    let input: [u64; N] = std::array::from_fn(|i| 10 + i as u64);
+    let mut k = 0usize;
+    let r = catch_unwind(AssertUnwindSafe(|| -> Option<[u64; N]> {
+        let out: [u64; N] = konst::array::map!(input, |x| {
+            if k >= s.len() {
+                panic_any(Limit);
+            }
+            let c = s[k];
+            k += 1;
+            match c {
+                0 => 3 * x + 1 + 100 * (k as u64 - 1),
+                1 => break,
+                2 => continue,
+                3 => return None,
+                _ => panic!("script"),
+            }
+        });
+        Some(out)
+    }));
+    let imp = fields(&[("res", classify(r, |a| show_u64s(&a)))]);
+    let std_ = if std_applicable(s, N) {
+        let mut k = 0usize;
+        let r = catch_unwind(AssertUnwindSafe(|| -> Option<[u64; N]> {
+            Some(input.map(|x| {
+                let c = s[k];
+                k += 1;
+                if c != 0 {
+                    panic!("script");
+                }
+                3 * x + 1 + 100 * (k as u64 - 1)
+            }))
+        }));
+        fields(&[("res", classify(r, |a| show_u64s(&a)))])
+    } else {
+        "-".into()
+    };
+    (imp, std_)
+}
+
+fn from_fn_num<const N: usize>(s: &[u8]) -> (String, String) {
+    let mut k = 0usize;
+    let r = catch_unwind(AssertUnwindSafe(|| -> Option<[u64; N]> {
+        let out: [u64; N] = konst::array::from_fn!(|i| {
+            if k >= s.len() {
+                panic_any(Limit);
+            }
+            let c = s[k];
+            k += 1;
+            match c {
+                0 => 3 * (i as u64) + 1 + 100 * (k as u64 - 1),
+                1 => break,
+                2 => continue,
+                3 => return None,
+                _ => panic!("script"),
+            }
+        });
+        Some(out)
+    }));
+    let imp = fields(&[("res", classify(r, |a| show_u64s(&a)))]);
+    let std_ = if std_applicable(s, N) {
+        let mut k = 0usize;
+        let r = catch_unwind(AssertUnwindSafe(|| -> Option<[u64; N]> {
+            Some(core::array::from_fn(|i| {
+                let c = s[k];
+                k += 1;
+                if c != 0 {
+                    panic!("script");
+                }
+                3 * (i as u64) + 1 + 100 * (k as u64 - 1)
+            }))
+        }));
+        fields(&[("res", classify(r, |a| show_u64s(&a)))])
+    } else {
+        "-".into()
+    };
+    (imp, std_)
+}
+
+/// ledger elements: the input is only borrowed; every produced element must be handed over
+/// exactly once when the macro completes, and is leaked (never dropped twice) otherwise
+fn map_led<const N: usize>(s: &[u8]) -> String {
+    reset(1);
+    let input: [E; N] = std::array::from_fn(|_| E::fresh());
+    let mut k = 0usize;
+    let r = catch_unwind(AssertUnwindSafe(|| -> Option<[E; N]> {
+        let out: [E; N] = konst::array::map!(input, |ref _x| {
+            if k >= s.len() {
+                panic_any(Limit);
+            }
+            let c = s[k];
+            k += 1;
+            match c {
+                0 => E::fresh(),
+                1 => break,
+                2 => continue,
+                3 => return None,
+                _ => panic!("script"),
+            }
+        });
+        Some(out)
+    }));
+    let res = classify(r, |a| {
+        let ids: Vec<u32> = a.into_iter().map(hand).collect();
+        show_ids(&ids)
+    });
+    let evs = take_log();
+    let leak = leaked(&evs, N as u32 + 1, next_id());
+    drop(input);
+    take_log();
+    fields(&[("res", res), ("ev", show_evs(&evs)), ("leak", show_ids(&leak))])
+}
+
+fn from_fn_led<const N: usize>(s: &[u8]) -> String {
+    reset(1);
+    let mut k = 0usize;
+    let r = catch_unwind(AssertUnwindSafe(|| -> Option<[E; N]> {
+        let out: [E; N] = konst::array::from_fn!(|_i| {
+            if k >= s.len() {
+                panic_any(Limit);
+            }
+            let c = s[k];
+            k += 1;
+            match c {
+                0 => E::fresh(),
+                1 => break,
+                2 => continue,
+                3 => return None,
+                _ => panic!("script"),
+            }
+        });
+        Some(out)
+    }));
+    let res = classify(r, |a| {
+        let ids: Vec<u32> = a.into_iter().map(hand).collect();
+        show_ids(&ids)
+    });
+    let evs = take_log();
+    let leak = leaked(&evs, 1, next_id());
+    fields(&[("res", res), ("ev", show_evs(&evs)), ("leak", show_ids(&leak))])
+}
+
+// ------------------------------------------------------------ map_! / from_fn_! (values)
+
+fn map_val<const N: usize>(s: &[u8]) -> (String, String) {
+    let mk = || -> [u64; N] { std::array::from_fn(|i| 10 + i as u64) };
+    let mut k = 0usize;
+    let input = mk();
+    let r = catch_unwind(AssertUnwindSafe(|| -> Option<[u64; N]> {
+        let out: [u64; N] = konst::array::map_!(input, |x: u64| {
+            let c = s[k];
+            k += 1;
+            match c {
+                0 => 3 * x + 1,
+                1 => break,
+                2 => continue,
+                3 => return None,
+                _ => panic!("script"),
+            }
+        });
+        Some(out)
+    }));
+    let imp = fields(&[("res", classify(r, |a| show_u64s(&a)))]);
+    let std_ = if std_applicable(s, N) {
+        let mut k = 0usize;
+        let r = catch_unwind(AssertUnwindSafe(|| -> Option<[u64; N]> {
+            Some(mk().map(|x| {
+                let c = s[k];
+                k += 1;
+                if c != 0 {
+                    panic!("script");
+                }
+                3 * x + 1
+            }))
+        }));
+        fields(&[("res", classify(r, |a| show_u64s(&a)))])
+    } else {
+        "-".into()
+    };
+    (imp, std_)
+}
+
+fn from_fn_val<const N: usize>(s: &[u8]) -> (String, String) {
+    let mut k = 0usize;
+    let r = catch_unwind(AssertUnwindSafe(|| -> Option<[u64; N]> {
+        let out: [u64; N] = konst::array::from_fn_!(|i| {
+            let c = s[k];
+            k += 1;
+            match c {
+                0 => 3 * (i as u64) + 1,
+                1 => break,
+                2 => continue,
+                3 => return None,
+                _ => panic!("script"),
+            }
+        });
+        Some(out)
+    }));
+    let imp = fields(&[("res", classify(r, |a| show_u64s(&a)))]);
+    let std_ = if std_applicable(s, N) {
+        let mut k = 0usize;
+        let r = catch_unwind(AssertUnwindSafe(|| -> Option<[u64; N]> {
+            Some(core::array::from_fn(|i| {
+                let c = s[k];
+                k += 1;
+                if c != 0 {
+                    panic!("script");
+                }
+                3 * (i as u64) + 1
+            }))
+        }));
+        fields(&[("res", classify(r, |a| show_u64s(&a)))])
+    } else {
+        "-".into()
+    };
+    (imp, std_)
+}
+
+macro_rules! by_n {
+    ($n:expr, $f:ident, $s:expr) => {
+        match $n {
+            0 => $f::<0>($s),
+            1 => $f::<1>($s),
+            2 => $f::<2>($s),
+            3 => $f::<3>($s),
+            4 => $f::<4>($s),
+            5 => $f::<5>($s),
+            _ => $f::<6>($s),
+        }
+    };
+}
+
+pub fn run(cfg: &Cfg, out: &mut Out) {
+    let maxn = if cfg.thorough { 5 } else { 4 };
+    let extra = if cfg.thorough { 3 } else { 2 };
+    for n in 0..=maxn {
+        for s in scripts(n, n + extra) {
+            let tag = script_tag(&s);
+            let sc = show_script(&s);
+            let (i, d) = by_n!(n, map_num, &s);
+            out.line("c11.map", &format!("{} {} 0", n, sc), &i, &d, &tag);
+            let (i, d) = by_n!(n, from_fn_num, &s);
+            out.line("c11.from_fn", &format!("{} {} 0", n, sc), &i, &d, &tag);
+            let i = by_n!(n, map_led, &s);
+            out.line("c11.map", &format!("{} {} 1", n, sc), &i, "-", &tag);
+            let i = by_n!(n, from_fn_led, &s);
+            out.line("c11.from_fn", &format!("{} {} 1", n, sc), &i, "-", &tag);
+        }
+        // the by-value macros evaluate the body at most once per element
+        for s in all_seqs(&[0u8, 1, 2, 3, 4], n).into_iter().filter(|s| s.len() == n) {
+            let tag = script_tag(&s);
+            let sc = show_script(&s);
+            let (i, d) = by_n!(n, map_val, &s);
+            out.line("c11.map_", &format!("{} {}", n, sc), &i, &d, &tag);
+            let (i, d) = by_n!(n, from_fn_val, &s);
+            out.line("c11.from_fn_", &format!("{} {}", n, sc), &i, &d, &tag);
+        }
+    }
+    // ArrayBuilder histories: push / build / clone / drop with len, is_full, as_slice after
+    // every step, incl. over- and under-filling
+    histories(cfg, out, "c11.builder", &[1]);
+}
